@@ -3,4 +3,4 @@
 From Coq Require Import Extraction ExtrOcamlBasic ExtrOcamlString ZArith List String.
 From Acme.C12 Require Import Proto NetModel Save Load Proj Domain Builder Received.
 Extraction Language OCaml.
-Extraction "extracted/c12_model.ml" save load wfb in_domain prune canon save_outputs selected build received_rel.
+Extraction "extracted/c12_model.ml" save load wfb in_domain prune canon save_outputs selected build supplied_ids received_rel.
